@@ -121,7 +121,7 @@ pub fn run(kind: &str, ctx: &Ctx, out: &mut dyn Write) {
             Err(e) => writeln!(s, "impl panic {}", e).unwrap(),
             Ok(mut d) => {
                 s.push_str(&dump_circuit(&d));
-                crate::common::reset_cursor();
+                // a freshly loaded model starts with a fresh cursor (F21): nothing to reset
                 let n = inp.n;
                 // a few assumption lists per model
                 let mut lists: Vec<Vec<i32>> = vec![vec![]];
